@@ -32,7 +32,9 @@ class WireMixin:
             except Exception:
                 sim.encode_raised += 1
                 raise
-            sim.encoded.append((sim.evno, out))
+            # the byte string the encoder produces = its result in the charset it was asked to frame for
+            enc = kw.get("encoding") or (a[1] if len(a) > 1 and isinstance(a[1], str) else "utf-8")
+            sim.encoded.append((sim.evno, out, enc))
             return out
 
         asyncfix.codec.Codec.encode = tapped
@@ -68,8 +70,8 @@ class WireMixin:
         charset = self.cfg.get("charset", "ascii")
         n_frames = 0
         # (1) what the encoder returns
-        for (ev, s) in self.encoded:
-            b = s.encode("utf-8")
+        for (ev, s, enc) in self.encoded:
+            b = s.encode(enc)
             why = refframer.check_frame(b)
             if why is not None:
                 kind = "ascii" if b.isascii() else "non-ascii"
